@@ -8,7 +8,7 @@ tie   : T-gen (GetStartBucketIndex / GetNextBucketIndex / GetMaxProbe / UpdateMa
 oracle: std::map twin inside the harness (independent of the Coq model)."""
 import os, re
 
-GEN = ['gen_unlimp.json', 'gen_limp1.json', 'gen_open2n2w.json', 'gen_base.json', 'gen_policy.json', 'gen_limp4.json', 'gen_open2n2.json', 'gen_openn1.json', 'gen_open8.json']
+GEN = ['gen_unlimp.json', 'gen_limp1.json', 'gen_limp1t.json', 'gen_limp1f.json', 'gen_lim4.json', 'gen_limp.json', 'gen_open2n2w.json', 'gen_base.json', 'gen_policy.json', 'gen_limp4.json', 'gen_open2n2.json', 'gen_openn1.json', 'gen_open8.json']
 
 ITEMS = {'a': (4, 4, 0), 'b': (8, 4, 0), 'c': (8, 8, 0), 'd': (24, 8, 0), 'e': (40, 8, 0), 'f': (16, 16, 0), 'g': (1, 1, 0),
          'h': (2, 2, 0), 'n': (8, 4, 1), 'm': (24, 8, 1), 'x': (8, 4, 2), 'y': (40, 8, 2)}
@@ -228,6 +228,32 @@ def leaf_cases(ctx, scale):
     return cases
 
 
+def open8_cases(ctx, scale):
+    """BucketOpen8::Find, SSE2 byte match: every pattern of 7 slot bytes over the alphabet {short hash, another hash, empty (248)}
+    plus random bytes; compared = the order of the itemPred calls"""
+    r = ctx.rng
+    cases = []
+    import itertools
+    for sh, other in ((5, 6), (0, 247)) if scale == 1 else ((5, 6), (0, 247), (247, 0), (100, 228)):
+        for pat in itertools.product((sh, other, 248), repeat=7):
+            cases.append('o8 %d %s' % (sh, ' '.join(map(str, pat))))
+    for i in range(500 * scale):
+        sh = r.below(248)
+        cases.append('o8 %d %s' % (sh, ' '.join(str(r.choice([sh, r.below(256), 248 + r.below(8)])) for _ in range(7))))
+    return cases
+
+
+def kind_cases(ctx):
+    """translator validation of the per-kind leaves (LimP1 / Lim4 / LimP WasFull rules, pool-index functions, Lim4 packing)"""
+    r = ctx.rng
+    cs = ['kf 0 %d' % st for st in range(256) if (st & 15) <= 4 and 1 <= (st >> 4) <= 4]
+    cs += ['kf 1 %d' % c for c in range(1, 5)] + ['kf 5 %d' % c for c in range(1, 9)]
+    cs += ['kf 2 0', 'kf 2 1'] + ['kf 2 %d' % ((i << 30) + r.below(2 ** 28)) for i in range(4) for _ in range(20)]
+    cs += ['kf 3 %d %d %d' % (r.below(2 ** 26), i, c) for i in range(1, 5) for c in range(1, i + 1) for _ in range(8)]
+    cs += ['kf 4 0', 'kf 4 1'] + ['kf 4 %d' % (r.range(1, 2 ** 40) * 8 + j) for j in range(8) for _ in range(10)]
+    return cs
+
+
 def oracle_scan(ctx, cases, lines, tu):
     """the independent oracle: the std::map twin inside the harness flags ORACLE!..., exceptions print X"""
     bad = []
@@ -342,6 +368,28 @@ def run(ctx):
         ctx.tie_obligations.append({'name': 'generated index + short-hash functions / hand-mirrored CalcCapacity == real functions on %d cases' % len(leaves), 'ok': not mism})
         for (i, c, a, b) in mism[:2]:
             ctx.violation('leaf function of the model and of the implementation disagree', {'case': c, 'tu': 'harness3', 'impl': a, 'model': b}, found_input=True)
+    if have_model:
+        kc = kind_cases(ctx)
+        mism, _ = ctx.correspond('kind-leaves', kc, [exes['harness2']], [ctx.model_exe])
+        ctx.tie_obligations.append({'name': 'generated per-kind leaves (LimP1 / Lim4 / LimP WasFull, pool index, Lim4 packing) == real functions on %d cases' % len(kc), 'ok': not mism})
+        for (i, c, a, b) in mism[:2]:
+            ctx.violation('per-kind leaf of the model and of the implementation disagree', {'case': c, 'tu': 'harness2', 'impl': a, 'model': b}, found_input=True)
+    if have_model:
+        o8 = open8_cases(ctx, scale)
+        mism, _ = ctx.correspond('open8-match', o8, [exes['harness4']], [ctx.model_exe])
+        ctx.tie_obligations.append({'name': 'Open8 SSE2 byte match: itemPred call order of the real Find == visit (movemask) on %d byte patterns' % len(o8), 'ok': not mism})
+        for (i, c, a, b) in mism[:2]:
+            ctx.violation('BucketOpen8::Find visits other slots / another order than the byte-match model', {'case': c, 'tu': 'harness4', 'impl': a, 'model': b}, found_input=True)
+        # independent of the model: the visited slots must be exactly the slots whose byte equals the short hash, increasing
+        path = os.path.join(ctx.build, 'open8-match.cases')
+        rc, lines, err = ctx.run_lines([exes['harness4']], path)
+        bad8 = []
+        for c, o in zip(o8, lines):
+            w = c.split(); exp = ','.join(str(i) for i in range(7) if w[2 + i] == w[1])
+            if o != exp: bad8.append((c, o, exp)); break
+        ctx.stage('oracle-open8-match', not bad8 and rc == 0, ('case %s: visited %s expected %s' % bad8[0]) if bad8 else '')
+        for (c, o, exp) in bad8[:1]:
+            ctx.violation('BucketOpen8::Find does not visit exactly the slots with an equal short-hash byte', {'case': c, 'tu': 'harness4', 'impl_output': o, 'expected': exp}, found_input=True)
     ctx.coverage['input_distribution'] = {'scripts': sum(len(v) for v in cases.values()), 'configurations': sum(len(v) for v in CONFIGS.values()),
                                           'op_histogram': hist, 'leaf_cases': len(leaves)}
     return ctx.finish(rule=RULE)
